@@ -13,7 +13,7 @@ import itertools
 
 from hypothesis import strategies as st
 
-from vlib import Violation, tree
+from vlib import Violation, fuzzing, tree
 from vlib.core import hyp_run
 from vlib.ref.ignoreblocks import END, START, ref_filter, spans
 
@@ -299,6 +299,8 @@ def check_bigfile(ctx, c):
 
 
 def replay(ctx, case):
+    if "fuzz" in case:
+        return fuzzing.replay(ctx, case)
     if "segs" in case:
         def tup(x):
             return tuple(tup(y) if isinstance(y, list) else y for y in x)
@@ -338,3 +340,5 @@ def run(ctx):
     strat2 = st.tuples(st.lists(heavy, min_size=1, max_size=14), st.sampled_from(wraps))
     hyp_run(ctx, "lint", strat2, lambda c: check_tokens(ctx, c[0], c[1], via_lint=True), n_lint)
     hyp_run(ctx, "bigfile", bigfile_case(), lambda c: check_bigfile(ctx, c), 40 if ctx.tier == "quick" else 800)
+    # coverage-guided stage (atheris): arbitrary text, same oracle extract(text) == extract(reference_filter(text))
+    fuzzing.run_stage(ctx, "ignore", 4000 if ctx.tier == "quick" else 300000, max_len=300)
